@@ -630,7 +630,7 @@ func runC11(r *rt.Run, tier string) {
 func init() {
 	register(&Prop{
 		ID: "C11", Level: "fault_enumeration", Variant: "N", Design: "DESIGN.md §5 C11",
-		Rule: "Each run draws a document (C07 generator, 1..3 paragraphs, comments, trailing blanks, optionally a dash-escaped line), clearsigns it with one of three fixture keys (two keyring candidates, one outsider) and picks a keyring composition (signer only, signer among others, others only, empty, nil) and an API (All, Next loop, Decoder). The fault-injecting two thirds apply one fault to the armored bytes: substitution, deletion, insertion or truncation at byte p; a foreign paragraph spliced before the armor, between armor header and text, inside the text, between text and signature, or after the signature; a second clearsigned block appended; the signature replaced by one from a non-keyring key or by a keyring key over other text; keyring without the signer; empty keyring. The thorough tier sweeps every byte position x {substitute, delete, insert, truncate} and every splice/replacement variant of each sampled document.",
+		Rule: "Each run draws a document (C07 generator, 1..3 paragraphs, comments, trailing blanks, optionally a dash-escaped first line and a dash-escaped line inside the text whose dash is followed by a blank), clearsigns it with one of three fixture keys (two keyring candidates, one outsider) and picks a keyring composition (signer only, signer among others, others only, empty, nil) and an API (All, Next loop, Decoder). The fault-injecting two thirds apply one fault to the armored bytes: substitution, deletion, insertion or truncation at byte p; a foreign paragraph spliced before the armor, between armor header and text, inside the text, between text and signature, or after the signature; a second clearsigned block appended; the signature replaced by one from a non-keyring key or by a keyring key over other text; keyring without the signer; empty keyring. The thorough tier sweeps every byte position x {substitute, delete, insert, truncate} and every splice/replacement variant of each sampled document.",
 		Run:  runC11, Sweep: true, SweepQuick: 4,
 		QuickRuns: 30000, QuickSecs: 45, ThoroughRuns: 3000, ThoroughSecs: 1200,
 		Components: map[string]interface{}{
